@@ -383,6 +383,12 @@ static void c11(const Trace& t, const Analysis& A, Verdict& V) {
 				else {
 					if (e.prev.dest != e.mAct) V.add(11, w.e - 1, F("previousTransition().destination=%d but s%d is active", sidOf(e.prev.dest), sidOf(e.mAct)));
 					if (!(e.prev == s)) V.add(11, w.e - 1, F("previousTransition()=%s but the applied (surviving) request was %s", trStr(e.prev).c_str(), trStr(s).c_str()));
+					// ... and it is the request as its author made it (origin, destination, payload), not merely what the guards were shown
+					const int k = w.survivor;
+					if (k == 0 ? (w.outKnownAtStart && w.outAtStart.valid) : bool(w.rounds[k - 1].madeReq)) {
+						const TrV& asked = k == 0 ? w.outAtStart : w.rounds[k - 1].lastReq;
+						if (!(e.prev == asked)) V.add(11, w.e - 1, F("previousTransition()=%s but the surviving request was made as %s", trStr(e.prev).c_str(), trStr(asked).c_str()));
+					}
 				}
 			} else if (e.prev.valid) V.add(11, w.e - 1, F("previousTransition()=%s although the step applied no transition", trStr(e.prev).c_str()));
 		}
@@ -391,6 +397,7 @@ static void c11(const Trace& t, const Analysis& A, Verdict& V) {
 				if (e.prev.dest != e.mAct) V.add(11, w.e - 1, F("after activation previousTransition().destination=%d but s%d is active", sidOf(e.prev.dest), sidOf(e.mAct)));
 				if (w.survivor < 1) V.add(11, w.e - 1, "after activation previousTransition() is set although no redirect was accepted");
 				else if (!(e.prev == w.rounds[w.survivor].pend)) V.add(11, w.e - 1, F("after activation previousTransition()=%s, accepted redirect was %s", trStr(e.prev).c_str(), trStr(w.rounds[w.survivor].pend).c_str()));
+				else if (w.rounds[w.survivor - 1].madeReq && !(e.prev == w.rounds[w.survivor - 1].lastReq)) V.add(11, w.e - 1, F("after activation previousTransition()=%s, but the accepted redirect was requested as %s", trStr(e.prev).c_str(), trStr(w.rounds[w.survivor - 1].lastReq).c_str()));
 			} else if (w.survivor >= 1) V.add(11, w.e - 1, "activation accepted a redirect but previousTransition() is empty");
 		}
 		if (w.type == WT_OP && w.code == OP_REPLAY) {
